@@ -91,7 +91,7 @@ def cmd_run(args):
     ap.add_argument('prop')
     ap.add_argument('--tier', default=os.environ.get('VERIF_TIER', 'quick'))
     ap.add_argument('--wall', type=float, default=None)
-    ap.add_argument('--workers', type=int, default=None)
+    ap.add_argument('--workers', type=int, default=int(os.environ.get('VERIF_WORKERS', '0') or 0) or None)
     ap.add_argument('--no-selftest', action='store_true')
     a = ap.parse_args(args)
     seed = int(os.environ.get('VERIF_SEED', '0') or 0)
